@@ -134,13 +134,20 @@ pub fn gen_pool(t: &mut Tape) -> Vec<Op> {
     if t.chance(50) {
         let h = gen_hide(t);
         let v = hide(h.avp.attr, &h.payload, &h.secret, &h.rv, &h.lp, &h.ap);
-        let s2 = related_secret(t, &h.secret);
-        let s3 = related_secret(t, &h.secret);
+        let s2 = related_secret_for(t, &h.secret, Some(h.avp.attr.to_be_bytes()));
+        let s3 = related_secret_for(t, &h.secret, Some(h.avp.attr.to_be_bytes()));
         pool.push(Op::Reveal(h.avp.attr, v.clone(), h.secret.clone(), h.rv));
         pool.push(Op::Reveal(h.avp.attr, v.clone(), s2.clone(), h.rv));
         pool.push(Op::Reveal(h.avp.attr, v, s3, h.rv));
         pool.push(Op::Hide(h.avp.clone(), h.secret.clone(), h.rv, h.lp.clone()));
         pool.push(Op::Hide(h.avp, s2, h.rv, h.lp));
+    }
+    // two accepted messages that an FNV-1a-32 digest of a natural region cannot tell apart (a memo keyed by a weak digest)
+    if t.chance(8) {
+        if let Some((b1, b2, _)) = fnv_twin_messages(t) {
+            pool.push(Op::Decode(b1, STRICT));
+            pool.push(Op::Decode(b2, STRICT));
+        }
     }
     while pool.len() < n {
         let op = match t.below(9) {
